@@ -224,6 +224,80 @@ def _trivial_job(job):
     return dict(res=res_all.to_json(), cands=cands, sample=[])
 
 
+def _oracle_class_of_graph(n, adj):
+    """class id of a graph state: the library's classifier is used only as a HINT, confirmed by an exists-layer
+    certificate against the representative of that id (independent of the classifier)"""
+    lc = loader.native("lc_classes")
+    stn = loader.native("stabilizer")
+    gr = loader.native("graph")
+    hint = int(lc.determine_lc_class(stn.Stabilizer(gr.Graph(np.array(adj, dtype=np.int8)))).id())
+    q = lcq.Q()
+    r, _ = lcq.lc_equivalent(q, adj, tables.rep_graph(n, hint))
+    if r == "sat":
+        return hint
+    for c in range(NCLASSES[n]):
+        r, _ = lcq.lc_equivalent(q, adj, tables.rep_graph(n, c))
+        if r == "sat":
+            return c
+    return None
+
+
+def _routed_job(job):
+    """user-style circuits: (1) a graph state on the first n-1 qubits, last qubit idle; (2) a Bell-type pair created on a
+    coupled pair and then routed apart with a chain of SWAPs along the coupling graph (few gates, large true cost)"""
+    n, conn, seed, tier = job
+    rnd = random.Random(seed)
+    core.tt_disable()
+    es = coupling_spec.edges(n, conn)
+    nb = {v: [] for v in range(n)}
+    for a, b in es:
+        nb[a].append(b)
+        nb[b].append(a)
+    progs = []
+    # (1) idle last qubit
+    if n >= 3:
+        K1 = NCLASSES[n - 1]
+        for c1 in sorted(set([K1 - 1] + [rnd.randrange(K1) for _ in range(3 if tier == "quick" else 12)])):
+            g1 = tables.rep_graph(n - 1, c1)
+            adj = [[g1[i][j] if i < n - 1 and j < n - 1 else 0 for j in range(n)] for i in range(n)]
+            gates = [("h", [q]) for q in range(n - 1)] + [("cz", [i, j]) for i in range(n - 1) for j in range(i + 1, n - 1) if g1[i][j]]
+            gates += [(rnd.choice(["s", "h", "x", "z"]), [rnd.randrange(n - 1)]) for _ in range(3)]
+            progs.append((gates, adj))
+    # (2) SWAP-routed pairs
+    for _ in range(3 if tier == "quick" else 12):
+        a, b = rnd.choice(es)
+        if rnd.random() < 0.5:
+            a, b = b, a
+        gates = [("h", [a]), ("h", [b]), ("cz", [a, b])]
+        cur, other = b, a
+        visited = {a, b}
+        for _step in range(rnd.randrange(1, n)):
+            nxt = [v for v in nb[cur] if v not in visited]
+            if not nxt:
+                break
+            v = rnd.choice(nxt)
+            gates.append(("swap", [cur, v]))
+            visited.add(v)
+            cur = v
+        adj = [[0] * n for _ in range(n)]
+        adj[other][cur] = adj[cur][other] = 1
+        progs.append((gates, adj))
+    cands = []
+    res_all = core.Result()
+    for gates, adj in progs:
+        cls = _oracle_class_of_graph(n, adj)
+
+        def fn():
+            return check_leaf(Ctx.cur, n, conn, gates, cls, history=False, want_cost=cls is not None)
+        res = explore(fn)
+        for v in res.violations[:1]:
+            cands.append(dict(kind="program", n=n, conn=conn, gates=gates, cls=cls, label=v["label"], step=1))
+        res.violations = []
+        res.leaves = []
+        res_all.merge(res)
+    return dict(res=res_all.to_json(), cands=cands, sample=[])
+
+
 def jobs_for(tier, seed):
     small = []
     for (n, conn) in ADVERTISED:
@@ -260,6 +334,7 @@ def run(tier, seed):
                   "structured long programs (up to ~70 gates incl. Y, I, redundant inverse pairs, SWAP pairs, CX- or CZ-built graph states) for n=4..6: %s; Pauli layer in a seeded affine family of 4 (quick, n=6: 1)%s" % (
                       "every class of every configuration" if tier == "quick" else "every class of every configuration", "" if tier == "quick" else ", one local Clifford symbolic (6 values)"),
                   "programs ending in computational-basis / product states (empty circuit, Paulis, trivially acting controlled gates, H layers) for every configuration with n>=4",
+                  "user-style programs for every configuration with n>=3: graph states on the first n-1 qubits with the last qubit idle; Bell-type pairs created on a coupled pair and routed apart by SWAP chains along the coupling graph (oracle class: exists-layer certificate)",
                   "history: a re-signed variant of the same program is compressed next and both results are re-examined"]
     ck.outside += ["arbitrary programs longer than the bound (lifted through C14-circuit + C01, DESIGN.md §C07-b)", "global phase (the property allows it)"]
     ck.validated += ztab.validate_against_qiskit(seed=seed, trials=100)
@@ -278,6 +353,12 @@ def run(tier, seed):
         ck.add("product-state programs %d-%s" % job[:2], res, sample=0)
         for c in r["cands"]:
             cands.append(("trivial n=%d %s %s" % (c["n"], c["conn"], c["gates"]), c, "%d-%s program %s (product state): %s" % (c["n"], c["conn"], c["gates"], c["label"])))
+    routed = [(n, conn, seed * 31 + 7 * n + len(conn), tier) for (n, conn) in ADVERTISED if n >= 3]
+    for job, r in harness.pmap(_routed_job, routed):
+        res = core.Result.from_json(r["res"])
+        ck.add("idle-qubit / SWAP-routed programs %d-%s" % job[:2], res, sample=0)
+        for c in r["cands"]:
+            cands.append(("routed n=%d %s %s" % (c["n"], c["conn"], c["gates"]), c, "%d-%s program %s: %s" % (c["n"], c["conn"], c["gates"], c["label"])))
     for job, r in harness.pmap(_struct_job, struct, progress=1000):
         res = core.Result.from_json(r["res"])
         ck.add("structured %d-%s" % job[:2], res, sample=0)
